@@ -213,7 +213,8 @@ theorem dMembers_depth (C : JCodec) (D : DOpts) (X : SchemaX) : ∀ (ms : JMembe
              obtain ⟨sub, hsub⟩ := storeMsg_ok hv
              have h1 := dMsg_depth C D X v fx.f.sub limit sub hsub
              omega
-           · simp only [hk, if_false]
+           · have hk' : fx.f.kind.isMessage = false := by simpa using hk
+             simp only [hk', Bool.false_eq_true, if_false]
              omega)
 theorem dList_depth (C : JCodec) (D : DOpts) (X : SchemaX) : ∀ (v : JV) (fx : FieldX) (limit : Int) (vs : Vals),
     0 ≤ limit → dList C D X fx limit v = .ok vs →
@@ -284,7 +285,8 @@ theorem dEntries_depth (C : JCodec) (D : DOpts) (X : SchemaX) : ∀ (ms : JMembe
                 have a1 := dMsg_depth C D X v vf.f.sub limit sub hv
                 have a2 := dEntries_depth C D X tl fx limit _ vs h0 h
                 omega
-            · simp only [hm, if_false] at h ⊢
+            · have hm' : vf.f.kind.isMessage = false := by simpa using hm
+              simp only [hm', Bool.false_eq_true, if_false] at h ⊢
               cases hv : dScalar C D vf v with
               | error e => simp [hv] at h
               | ok ox =>
